@@ -6,25 +6,13 @@ Theorems about `C15.parseUnit` / `C15.cliBuild`, the model of the option parsing
 builds `vermouth.ApplyRubberBand(...)` (see `VermouthModel/C15_Cli.lean`).  The model is executed against the
 statements extracted from the source on every run; `cli_source_table` (`VermouthProps/C15_CliTable.lean`) pins the constants the model hard-codes
 (defaults, keyword ↔ option mapping, tests of the `if/elif` chain) to the table re-extracted from the source.
+
+Vocabulary (defined in `VermouthProofs/C15_Cli.lean`): `isKeyword s` — `s` is `molecule`, `all` or `chain`;
+`unitFields s` — `[[int(i) for i in apair.split(":")] for apair in s.split(",")]` with `none` for a field `int()`
+rejects; `ermdOf a` — the value of `-ermd` after `type=int` (`none`: rejected, `some none`: option not given);
+`renderRegions rs` — `','.join('%d:%d' % r for r in rs)`.
 -/
 namespace C15
-
-def isKeyword (s : List Char) : Prop := s = "molecule".toList ∨ s = "all".toList ∨ s = "chain".toList
-
-instance (s : List Char) : Decidable (isKeyword s) := by unfold isKeyword; infer_instance
-
-/-- the fields of a unit specification: `[int(i) for i in apair.split(":")] for apair in s.split(",")` -/
-def unitFields (s : List Char) : List (List (Option Int)) :=
-  (splitOn ',' s).map fun apair => (splitOn ':' apair).map pyInt
-
-theorem parseUnit_of_not_keyword (s : List Char) (h : ¬ isKeyword s) :
-    parseUnit s =
-      if (unitFields s).any (fun p => p.any Option.isNone) then .errInt
-      else if (unitFields s).any (fun p => p.length != 2) then .errFaulty
-      else .regions ((unitFields s).filterMap pairOfList) := by
-  unfold isKeyword at h
-  unfold parseUnit unitFields
-  rw [if_neg (fun e => h (Or.inl e)), if_neg (fun e => h (Or.inr (Or.inl e))), if_neg (fun e => h (Or.inr (Or.inr e)))]
 
 /-- **cli_domain_choice.** Which criterion each value of `-eunit` selects: `molecule` → `always_true`,
 `all` → `always_true` after merging all molecules, `chain` → `same_chain`; every other string goes through the
@@ -47,29 +35,6 @@ theorem cli_domain_choice (s : List Char) :
       · exact ⟨rfl, Or.inr (Or.inr rfl)⟩
       · exact ⟨rfl, Or.inl ⟨_, rfl⟩⟩
 
-theorem filterMap_pairOfList (rs : List (Int × Int)) :
-    (rs.map fun r => [some r.1, some r.2]).filterMap pairOfList = rs := by
-  induction rs with
-  | nil => rfl
-  | cons r t ih => simp only [List.map_cons, List.filterMap_cons, pairOfList, ih]
-
-theorem unitFields_render (rs : List (Int × Int)) (h : rs ≠ []) :
-    unitFields (renderRegions rs) = rs.map fun r => [some r.1, some r.2] := by
-  unfold unitFields
-  rw [split_renderRegions rs h, List.map_map]
-  apply List.map_congr_left
-  intro r _
-  exact split_renderRegion r
-
-theorem render_not_keyword (rs : List (Int × Int)) (h : rs ≠ []) : ¬ isKeyword (renderRegions rs) := by
-  obtain ⟨c, t, e, hc⟩ := renderRegions_head rs h
-  rw [e]
-  unfold isKeyword
-  rintro (h' | h' | h') <;>
-  · have := (List.cons.inj h').1
-    subst this
-    rcases hc with hc | hc <;> revert hc <;> decide
-
 /-- **cli_regions_parse_format.** Parsing the canonical rendering `a1:b1,a2:b2,...` (`'%d:%d'` joined by commas;
 negative numbers with a minus sign) of ANY non-empty region list gives that list back: same regions, same order,
 bounds not swapped or sorted. -/
@@ -79,26 +44,6 @@ theorem cli_regions_parse_format (rs : List (Int × Int)) (h : rs ≠ []) :
   rw [if_neg, if_neg]
   · simp
   · simp
-
-/-- every field an int and every piece of two fields: the shape of an accepted specification -/
-theorem fields_of_shape (F : List (List (Option Int)))
-    (h1 : F.any (fun p => p.any Option.isNone) = false) (h2 : F.any (fun p => p.length != 2) = false) :
-    F = (F.filterMap pairOfList).map fun r => [some r.1, some r.2] := by
-  induction F with
-  | nil => rfl
-  | cons p t ih =>
-    simp only [List.any_cons, Bool.or_eq_false_iff] at h1 h2
-    have hp : ∃ a b, p = [some a, some b] := by
-      match p, h1.1, h2.1 with
-      | [some a, some b], _, _ => exact ⟨a, b, rfl⟩
-      | [], _, h => simp at h
-      | [_], _, h => simp at h
-      | _ :: _ :: _ :: _, _, h => simp at h
-      | [none, _], h, _ => simp at h
-      | [some _, none], h, _ => simp at h
-    obtain ⟨a, b, rfl⟩ := hp
-    simp only [List.filterMap_cons, pairOfList, List.map_cons]
-    rw [← ih h1.2 h2.2]
 
 /-- **cli_regions_parse_iff** (exact grammar). A string that is not one of the three keywords is accepted as the
 region list `rs` exactly when its comma-separated pieces correspond one to one to the regions, each piece
@@ -147,25 +92,6 @@ theorem cli_regions_malformed_rejected (s : List Char) (hk : ¬ isKeyword s) :
   · rintro (h | h) <;> rw [h] <;> rfl
 
 /-! ## numeric options, `-ermd`, `-eb` -/
-
-/-- `-ermd` as argparse converts it (`type=int`): not given, rejected, or the integer -/
-def ermdOf (a : CliArgs) : Option (Option Int) :=
-  match a.ermd with
-  | none => some none
-  | some s => (pyInt s).map some
-
-theorem cliBuild_eq (a : CliArgs) :
-    cliBuild a =
-      match ermdOf a with
-      | none => .usageError
-      | some rmd =>
-        if a.elastic && a.go then .usageError
-        else if !elasticOn a then .noElastic
-        else match unitDomain (parseUnit (a.eunit.getD dfltEunit)) with
-          | none => .valueError (parseUnit (a.eunit.getD dfltEunit) = .errFaulty)
-          | some dom => .processor (unitMerges (parseUnit (a.eunit.getD dfltEunit))) a.eb.isNone (cliProc a rmd dom) := by
-  unfold cliBuild ermdOf
-  rfl
 
 /-- **cli_options_pass_through.** Whenever a processor is built, every numeric option lands in the constructor
 argument of its meaning (`-el` lower bound, `-eu` upper bound, `-ea` decay factor, `-ep` decay power, `-ef` base
